@@ -1,5 +1,6 @@
 import Bp7.Props.C19
 import Bp7.Props.C19More
+import Bp7.Props.C19Kinds
 #print axioms Bp7.C19.accepted
 #print axioms Bp7.C19.reject_trailing_bytes
 #print axioms Bp7.C19.reject_missing_break
@@ -21,3 +22,12 @@ import Bp7.Props.C19More
 #print axioms Bp7.C19.readEid_uint
 #print axioms Bp7.C19.reject_primary_dst_string
 #print axioms Bp7.C19.reject_prevnode_text
+#print axioms Bp7.C19.parse_wrong_major
+#print axioms Bp7.C19.readUint_wrong_major
+#print axioms Bp7.C19.readSeq_wrong_major
+#print axioms Bp7.C19.readByteBuf_wrong_major
+#print axioms Bp7.C19.reject_primary_wrong_kind
+#print axioms Bp7.C19.reject_primary_frag_wrong_kind
+#print axioms Bp7.C19.reject_primary_crc_wrong_kind
+#print axioms Bp7.C19.reject_canon_wrong_kind
+#print axioms Bp7.C19.reject_canon_crc_wrong_kind
